@@ -131,16 +131,16 @@ type snapRec struct {
 }
 
 type multiState struct {
-	nW      int
-	whist   []*History  // per-writer models
-	wcalls  [][]callRec // per writer, per batch
-	snaps   []snapRec
-	closed  bool
+	nW                 int
+	whist              []*History  // per-writer models
+	wcalls             [][]callRec // per writer, per batch
+	snaps              []snapRec
+	closed             bool
 	closeInv, closeRet int64
-	wg      simrt.WaitGroup
-	pending int
-	overlap int
-	kids    bool
+	wg                 simrt.WaitGroup
+	pending            int
+	overlap            int
+	kids               bool
 }
 
 func (e *Exec) isWriter(prog []Op) bool {
@@ -152,6 +152,7 @@ func (e *Exec) isWriter(prog []Op) bool {
 	return false
 }
 
+//go:norace
 func (e *Exec) runMulti() {
 	md := &multiState{}
 	e.md = md
@@ -207,6 +208,8 @@ func (e *Exec) runMulti() {
 
 // livenessMonitor: once faults have stopped, every pending call returns within
 // a bounded number of scheduling points of a fair schedule.
+//
+//go:norace
 func (e *Exec) livenessMonitor() {
 	md := e.md
 	// let the random schedule run for a while first
@@ -247,6 +250,7 @@ func (e *Exec) livenessMonitor() {
 
 func anyoneElseCanRun() bool { return simrt.OthersEligible() }
 
+//go:norace
 func (e *Exec) driver(id int, prog []Op) {
 	md := e.md
 	for i, op := range prog {
@@ -331,6 +335,7 @@ func (e *Exec) driver(id int, prog []Op) {
 	}
 }
 
+//go:norace
 func (e *Exec) postCloseCalls() {
 	if e.collOpen || e.coll == nil {
 		return
@@ -365,6 +370,7 @@ func writerView(n *Node, w int) *Node {
 	return v
 }
 
+//go:norace
 func (e *Exec) readSnap(reader int) {
 	md := e.md
 	if md.closed {
@@ -414,6 +420,7 @@ func (e *Exec) readSnap(reader int) {
 	md.snaps = append(md.snaps, rec)
 }
 
+//go:norace
 func (e *Exec) getMarkers(reader int) {
 	md := e.md
 	if md.closed {
@@ -441,6 +448,7 @@ func (e *Exec) getMarkers(reader int) {
 	}
 }
 
+//go:norace
 func (e *Exec) statsSample() {
 	md := e.md
 	if md.closed {
@@ -471,6 +479,8 @@ func (e *Exec) statsSample() {
 
 // checkMultiHistory evaluates real-time order and monotonicity over the
 // recorded history, directly and with porcupine as a cross-check.
+//
+//go:norace
 func (e *Exec) checkMultiHistory() {
 	md := e.md
 	snaps := md.snaps
@@ -581,6 +591,7 @@ func (e *Exec) porcupineCheck() {
 	}
 }
 
+//go:norace
 func (e *Exec) finalMultiRead() {
 	md := e.md
 	simrt.Quiesce(20000, 0)
